@@ -227,6 +227,11 @@ impl Timestamp {
                 + i128::from(leaps * 86400 + 946_684_800 + 86400);
         }
 
+        // Months and days are one-based; zero is not a valid value for either
+        if parts.months == 0 || parts.days == 0 {
+            return None;
+        }
+
         let seconds_within_month = 86400 * u32::from(parts.days - 1)
             + 3600 * u32::from(parts.hours)
             + 60 * u32::from(parts.minutes)
@@ -469,25 +474,58 @@ impl fmt::Display for ParseTimestampError {
 impl std::error::Error for ParseTimestampError {}
 
 fn parse_rfc3339(fmt: &str) -> Result<Timestamp, ParseTimestampError> {
-    if fmt.len() > 30 || fmt.len() < 19 {
+    // Parse a run of ASCII digits; anything else (signs, whitespace, multi-byte chars) is an error
+    fn digits(bytes: &[u8]) -> Result<u32, ParseTimestampError> {
+        if bytes.is_empty() {
+            return Err(ParseTimestampError {});
+        }
+
+        let mut value = 0u32;
+        for b in bytes {
+            if !b.is_ascii_digit() {
+                return Err(ParseTimestampError {});
+            }
+
+            value = value * 10 + u32::from(*b - b'0');
+        }
+
+        Ok(value)
+    }
+
+    // Work on bytes so arbitrary (non-ASCII) input can't cause slicing panics
+    let fmt = fmt.as_bytes();
+
+    // `yyyy-mm-ddThh:mm:ssZ` through to `yyyy-mm-ddThh:mm:ss.fffffffffZ`
+    if fmt.len() > 30 || fmt.len() < 20 {
         // Invalid length
         return Err(ParseTimestampError {});
     }
 
-    if *fmt.as_bytes().last().unwrap() != b'Z' {
+    if fmt[fmt.len() - 1] != b'Z' {
         // Non-UTC
         return Err(ParseTimestampError {});
     }
 
-    let years = u16::from_str_radix(&fmt[0..4], 10).map_err(|_| ParseTimestampError {})?;
-    let months = u8::from_str_radix(&fmt[5..7], 10).map_err(|_| ParseTimestampError {})?;
-    let days = u8::from_str_radix(&fmt[8..10], 10).map_err(|_| ParseTimestampError {})?;
-    let hours = u8::from_str_radix(&fmt[11..13], 10).map_err(|_| ParseTimestampError {})?;
-    let minutes = u8::from_str_radix(&fmt[14..16], 10).map_err(|_| ParseTimestampError {})?;
-    let seconds = u8::from_str_radix(&fmt[17..19], 10).map_err(|_| ParseTimestampError {})?;
-    let nanos = if fmt.len() > 19 {
+    if fmt[4] != b'-' || fmt[7] != b'-' || fmt[10] != b'T' || fmt[13] != b':' || fmt[16] != b':' {
+        // Invalid separators
+        return Err(ParseTimestampError {});
+    }
+
+    let years = digits(&fmt[0..4])? as u16;
+    let months = digits(&fmt[5..7])? as u8;
+    let days = digits(&fmt[8..10])? as u8;
+    let hours = digits(&fmt[11..13])? as u8;
+    let minutes = digits(&fmt[14..16])? as u8;
+    let seconds = digits(&fmt[17..19])? as u8;
+    let nanos = if fmt.len() > 20 {
+        if fmt[19] != b'.' {
+            // Invalid subsecond separator
+            return Err(ParseTimestampError {});
+        }
+
+        // Between 1 and 9 digits
         let subsecond = &fmt[20..fmt.len() - 1];
-        u32::from_str_radix(subsecond, 10).unwrap() * 10u32.pow(9 - subsecond.len() as u32)
+        digits(subsecond)? * 10u32.pow(9 - subsecond.len() as u32)
     } else {
         0
     };
